@@ -32,6 +32,10 @@ def main(argv=None) -> int:
         chk = Check(pid, a.tier, repo, seed)
         mod = importlib.import_module(f"checks.{pid.lower()}")
         mod.run(chk)
+        # cross-cutting rules, attributed to this property through the call graph of its entry points
+        from . import memo
+
+        memo.check(chk, pid)
         if a.tier == "thorough" and hasattr(mod, "run_thorough"):
             mod.run_thorough(chk)
     except AnalysisError as e:
